@@ -120,9 +120,9 @@ func run(c *core.Ctx) {
 		}
 		exec(c, Case{Fn: fn, Input: in, Size: size})
 	}
-	// malformed stream, last (see execEmit): sizes outside the property, 0 and -1. The oracle requires only
-	// that the Func variant does what the slice-returning variant does; neither size is compared with the
-	// model (for size 0 a stat records whether the code did what the model's size-0 branches say).
+	// malformed stream: sizes outside the property, 0 and -1. Nothing can fail here and nothing is sent to
+	// the model; stats record whether the Func variant did what the slice-returning variant did, and for
+	// size 0 whether the code did what the model's size-0 branches say.
 	edge(0)
 	edge(-1)
 }
@@ -338,12 +338,17 @@ func execEmit(c *core.Ctx, cs Case, emit bool) {
 		c.Count("panic")
 	}
 	// direct oracle: the property itself, on the implementation's output
+	inDomain := cs.Size >= 1 || isPairs
 	if g != nil {
 		if d := g.changed(); len(d) > 0 {
-			c.Fail("input or memory around it modified", fmt.Sprintf("changed input indices %v (negative: before the slice; >= %d: spare capacity)", d, n))
+			if inDomain {
+				c.Fail("input or memory around it modified", fmt.Sprintf("changed input indices %v (negative: before the slice; >= %d: spare capacity)", d, n))
+			} else {
+				c.Count("size_below_1_input_modified")
+			}
 		}
 	}
-	if cs.Size >= 1 || isPairs {
+	if inDomain {
 		if kind == runaway {
 			c.Fail(fmt.Sprintf("more than %d pieces delivered (stopped by the harness)", n+2), fmt.Sprint(pieces))
 		} else if kind != "" {
@@ -355,30 +360,22 @@ func execEmit(c *core.Ctx, cs Case, emit bool) {
 			c.Fail("write through a piece lands in the wrong place", probeFail[0])
 		}
 	} else {
-		// size < 1 is outside the property: what the pieces are, or whether the call panics, is not
-		// fixed. Required only: the Func variant does what the slice-returning variant does (both
-		// panic, whatever the message, or both deliver the same pieces).
-		// Such a difference is reported only when no failure inside the property's domain has been
-		// recorded (this stream runs last): the failing input of a VIOLATION is then one the property
-		// speaks about whenever there is one.
-		fail := func(what, detail string) {
-			if len(c.Failures) > 0 {
-				c.Count("size_below_1_difference_not_reported")
-				return
-			}
-			c.Fail(what, detail)
-		}
+		// size < 1 is outside the property: what the pieces are, whether the call panics, whether the
+		// Func variant does what the slice-returning variant does - nothing is fixed, so NOTHING here
+		// fails (a hardening such as `if size < 1 { panic(...) }` in one variant only is harmless).
+		// The run only records, as stats, what it saw: the two variants differing (one panics and the
+		// other does not, or different pieces), a variant that went on delivering pieces (cut off by
+		// the harness after n+2), an input modified.
 		in2, g2 := guarded(cs.Input, cs.Nil)
 		pieces2, kind2 := call(twin(cs.Fn), in2, cs.Size, nil)
-		if outcome(kind) != outcome(kind2) {
-			fail("size < 1: "+cs.Fn+" "+outcome(kind)+", "+twin(cs.Fn)+" "+outcome(kind2), fmt.Sprintf("%s: %v, %s: %v", cs.Fn, pieces, twin(cs.Fn), pieces2))
-		} else if kind == "" && !eqPieces(pieces, pieces2) {
-			fail("size < 1: "+cs.Fn+" and "+twin(cs.Fn)+" deliver different pieces", fmt.Sprintf("%v vs %v", pieces, pieces2))
+		if kind == runaway || kind2 == runaway {
+			c.Count("size_below_1_runaway")
 		}
-		if g2 != nil {
-			if d := g2.changed(); len(d) > 0 {
-				c.Fail("input or memory around it modified", fmt.Sprintf("%s: changed input indices %v", twin(cs.Fn), d))
-			}
+		if outcome(kind) != outcome(kind2) || (kind == "" && !eqPieces(pieces, pieces2)) {
+			c.Count("size_below_1_func_differs")
+		}
+		if g2 != nil && len(g2.changed()) > 0 {
+			c.Count("size_below_1_input_modified")
 		}
 		// Not a check, a record: does the code still do at size 0 what the model's size-0 branches say
 		// (Chunk/ChunkFunc: nothing for the empty input, else a panic; Windowed/WindowedFunc: n+1 empty
